@@ -3939,6 +3939,10 @@ class RandVar(Vars):
 
     def __add__(self, other):
 
+        if isinstance(other, (DecVar, DecVarSub, DecAffine)):
+            # the sum does not depend on the order of its terms
+            return other.__add__(self)
+
         expr = super().__add__(other)
         if isinstance(expr, RoAffine):
             expr = DecRoAffine(expr, other.event_adapt, other.ctype)
